@@ -6,6 +6,7 @@ package main
 
 import (
 	"context"
+	"database/sql"
 	"errors"
 	"fmt"
 	"math/big"
@@ -38,13 +39,14 @@ type gsEv struct {
 
 type gsClient struct {
 	aggkittypes.BaseEthereumClienter
-	mu     gosync.Mutex
-	tip    uint64
-	polls  int
-	chain  map[uint64]gsEv
-	queried [][2]uint64
-	injected map[common.Hash]bool
+	mu             gosync.Mutex
+	tip            uint64
+	polls          int
+	chain          map[uint64]gsEv
+	queried        [][2]uint64
+	injected       map[common.Hash]bool
 	injectedAtPoll map[common.Hash]bool
+	hdrFault       int // > 0: the hdrFault-th header-by-number call from now answers once with a foreign block
 }
 
 var gsAddr = common.HexToAddress("0x00000000000000000000000000000000000000a1")
@@ -60,6 +62,14 @@ func (c *gsClient) HeaderByNumber(ctx context.Context, number *big.Int) (*types.
 	c.mu.Lock()
 	defer c.mu.Unlock()
 	if number != nil && number.Sign() >= 0 {
+		if c.hdrFault > 0 {
+			c.hdrFault--
+			if c.hdrFault == 0 {
+				h := c.hdr(number.Uint64())
+				h.Extra = []byte("foreign") // a reorg / lagging backend between eth_getLogs and the header query
+				return h, nil
+			}
+		}
 		return c.hdr(number.Uint64()), nil
 	}
 	c.polls++
@@ -150,18 +160,20 @@ func (q *gsQuerier) GetInfoByGlobalExitRoot(ger common.Hash) (*l1infotreesync.L1
 }
 
 type gsWorld struct {
-	dir    string
-	p      *lastgersync.VerifProcessor
-	cl     *gsClient
-	q      *gsQuerier
-	ch     chan sync.EVMBlock
-	cancel context.CancelFunc
-	done   chan struct{}
-	lines  []string
-	polled uint64 // highest tip the downloader has been shown
+	dir            string
+	p              *lastgersync.VerifProcessor
+	cl             *gsClient
+	q              *gsQuerier
+	ch             chan sync.EVMBlock
+	cancel         context.CancelFunc
+	done           chan struct{}
+	lines          []string
+	polled         uint64 // highest tip the downloader has been shown
 	removalReorged bool
-	fep    bool
-	fepFrom uint64
+	fep            bool
+	fepFrom        uint64
+	ctl            *sql.DB // second connection: arms the one-shot storage fault of `poll!`
+	faulted        int
 }
 
 func (w *gsWorld) stopDownloader() {
@@ -177,6 +189,10 @@ func (w *gsWorld) close() {
 	if w.p != nil {
 		w.p.Close()
 		w.p = nil
+	}
+	if w.ctl != nil {
+		w.ctl.Close()
+		w.ctl = nil
 	}
 	if w.dir != "" {
 		os.RemoveAll(w.dir)
@@ -219,7 +235,7 @@ func (w *gsWorld) settle() string {
 		}
 		for len(w.ch) > 0 {
 			b := <-w.ch
-			if err := w.p.ProcessBlock(context.Background(), sync.Block{Num: b.Num, Events: b.Events, Hash: b.Hash}); err != nil {
+			if err := w.process(b); err != nil {
 				return "err " + err.Error()
 			}
 		}
@@ -230,11 +246,25 @@ func (w *gsWorld) settle() string {
 	}
 	for len(w.ch) > 0 {
 		b := <-w.ch
-		if err := w.p.ProcessBlock(context.Background(), sync.Block{Num: b.Num, Events: b.Events, Hash: b.Hash}); err != nil {
+		if err := w.process(b); err != nil {
 			return "err " + err.Error()
 		}
 	}
 	return "ok"
+}
+
+// the driver's handling of one delivered block: a failed ProcessBlock is retried (the injected fault is one-shot)
+func (w *gsWorld) process(b sync.EVMBlock) error {
+	blk := sync.Block{Num: b.Num, Events: b.Events, Hash: b.Hash}
+	err := w.p.ProcessBlock(context.Background(), blk)
+	if err != nil && strings.Contains(err.Error(), "verif fault") {
+		w.faulted++
+		// the rolled-back transaction also undid the trigger's counter: disarm before the driver's retry
+		_, e2 := w.ctl.Exec(`UPDATE verif_fault SET armed=0`)
+		must(e2)
+		err = w.p.ProcessBlock(context.Background(), blk)
+	}
+	return err
 }
 
 func (w *gsWorld) exec(r *Run, line string) string {
@@ -256,6 +286,17 @@ func (w *gsWorld) exec(r *Run, line string) string {
 		w.dir = dir
 		w.p, err = lastgersync.VerifNewProcessor(filepath.Join(dir, "g.sqlite"))
 		must(err)
+		w.ctl, err = db.NewSQLiteDB(filepath.Join(dir, "g.sqlite"))
+		must(err)
+		_, err = w.ctl.Exec(`CREATE TABLE verif_fault (id INTEGER PRIMARY KEY CHECK (id=1), armed INTEGER, target INTEGER, n INTEGER);
+			INSERT INTO verif_fault VALUES (1,0,0,0);`)
+		must(err)
+		for ti, t := range []string{"INSERT ON block", "INSERT ON imported_global_exit_root", "DELETE ON imported_global_exit_root"} {
+			_, err = w.ctl.Exec(fmt.Sprintf(`CREATE TRIGGER verif_f_%d BEFORE %s WHEN (SELECT armed FROM verif_fault)=1 BEGIN
+				UPDATE verif_fault SET n = n + 1;
+				SELECT CASE WHEN (SELECT n FROM verif_fault) - 1 = (SELECT target FROM verif_fault) THEN RAISE(FAIL,'verif fault') END; END;`, ti, t))
+			must(err)
+		}
 		w.cl = &gsClient{chain: map[uint64]gsEv{}, injected: map[common.Hash]bool{}}
 		w.q = &gsQuerier{idx: map[common.Hash]uint32{}, lag: map[common.Hash]int{}}
 		w.fep = len(ws) > 1 && ws[1] == "fep"
@@ -284,13 +325,27 @@ func (w *gsWorld) exec(r *Run, line string) string {
 		w.q.leaves = append(w.q.leaves, gsGER(bigOf(ws[2]).Uint64()))
 		w.q.mu.Unlock()
 		obs = "ok"
+	case "hdrfault":
+		w.cl.mu.Lock()
+		w.cl.hdrFault = int(bigOf(ws[1]).Uint64())
+		w.cl.mu.Unlock()
+		obs = "ok"
 	case "inject":
 		w.cl.mu.Lock()
 		w.cl.injected[gsGER(bigOf(ws[1]).Uint64())] = true
 		w.cl.mu.Unlock()
 		obs = "ok"
-	case "poll":
+	case "poll", "poll!":
 		t := bigOf(ws[1]).Uint64()
+		if ws[0] == "poll!" {
+			// one storage statement of this poll's block processing fails once; the driver retries the block
+			_, err := w.ctl.Exec(`UPDATE verif_fault SET armed=1, target=$1, n=0`, bigOf(ws[2]).Uint64())
+			must(err)
+			defer func() {
+				_, err := w.ctl.Exec(`UPDATE verif_fault SET armed=0`)
+				must(err)
+			}()
+		}
 		w.cl.mu.Lock()
 		w.cl.tip = t
 		w.cl.mu.Unlock()
@@ -476,7 +531,20 @@ func gsGen(r *Run, rng *Rng) {
 				}
 			}
 			tip += grow
-			w.exec(r, fmt.Sprintf("poll %d", tip))
+			if rng.Chance(15) {
+				w.exec(r, fmt.Sprintf("hdrfault %d", 1+rng.Intn(3)))
+				r.Count("branch:header-mismatch")
+			}
+			if rng.Chance(15) {
+				// a storage fault on one of the first statements of this poll's blocks (block row / GER row / GER delete)
+				f0 := w.faulted
+				w.exec(r, fmt.Sprintf("poll! %d %d", tip, rng.Intn(4)))
+				if w.faulted > f0 {
+					r.Count("branch:storage-fault-hit")
+				}
+			} else {
+				w.exec(r, fmt.Sprintf("poll %d", tip))
+			}
 			r.Case(fmt.Sprintf("gs:%d:%d:%d", i, s, tip))
 			if rng.Chance(20) {
 				w.exec(r, "restart")
